@@ -543,7 +543,7 @@ class Repo:
 
     def _normalise(self):
         """inline the functions the rules do not know into their callers (sa/inline.py)"""
-        from .inline import normalise, lower_lock_idiom
+        from .inline import normalise, lower_lock_idiom, inline_super_calls
         srcs = {rel: m.src for rel, m in self.modules.items()}
         for rel, t in lower_lock_idiom({rel: m.tree for rel, m in self.modules.items()}, srcs).items():
             self.modules[rel] = self.modules[rel].with_tree(t)
@@ -551,6 +551,10 @@ class Repo:
         changed, self.inline_report = normalise({rel: m.tree for rel, m in self.modules.items()}, sources={rel: m.src for rel, m in self.modules.items()})
         for rel, t in changed.items():
             self.modules[rel] = self.modules[rel].with_tree(t)
+        # last (the helper inlining above starts again from the sources): delegations to the inherited implementation
+        for rel, t in inline_super_calls({rel: m.tree for rel, m in self.modules.items()}).items():
+            self.modules[rel] = self.modules[rel].with_tree(t)
+            self.modules[rel].super_inlined = True
 
     def _read(self, rel, p):
         if rel in self.overlay:
